@@ -1,0 +1,9 @@
+//go:build verif
+
+package ha
+
+// Verification seam for property C09 (decoder hammer in /verif): exported
+// wrapper around an unexported function, no behaviour of its own.
+
+// VerifC09HandleSSEData delivers one SSE "data:" payload to the standby's real handler.
+func (s *HASyncer) VerifC09HandleSSEData(data []byte) error { return s.handleSSEData(data) }
